@@ -176,3 +176,71 @@ func loopFormTable() []*Program {
 	}
 	return out
 }
+
+// delegationShapes: YieldFrom at the statement positions the random generators do not reach (initialisers of
+// switch / type switch / for whose cases or body do not yield themselves, nested in other statements).
+var delegationShapes = []shape{
+	{name: "yieldfrom-as-initialiser", tags: []string{"yieldfrom"}, decls: `
+$GEN{$NX(a int)}{int}{
+	$YIELD{a}
+	$YIELD{a + 1}
+	$RET
+}
+
+$GEN{$NG(k int)}{int}{
+	switch $YFROM{$NX(k)}; k {
+	case 1:
+		k++
+	}
+	$YIELD{k}
+	i := 0
+	for $YFROM{$NX(10)}; i < 2; i++ {
+		tr.Ev(1, i)
+	}
+	switch $YFROM{$NX(20)}; v := tr.Any(k).(type) {
+	case int:
+		_ = v
+	}
+	switch $YFROM{$NX(30)}; {
+	case k > 1:
+		tr.Ev(2)
+	default:
+	}
+	if k > 0 {
+		switch $YFROM{$NX(40)}; k {
+		case 2:
+			tr.Ev(3)
+		}
+	}
+	for j := 0; j < 2; j++ {
+		switch $YFROM{$NX(50 + j)}; j {
+		case 0:
+			continue
+		}
+		tr.Ev(4, j)
+	}
+	$RET
+}`, entries: []*Entry{drive("$NG", "int", 1, nil)}},
+	{name: "yieldfrom-as-initialiser-last-statement", tags: []string{"yieldfrom"}, decls: `
+$GEN{$NX(a int)}{int}{
+	$YIELD{a}
+	$RET
+}
+
+$GEN{$NG(k int)}{int}{
+	switch $YFROM{$NX(k)}; k {
+	case 1:
+		tr.Ev(1)
+	}
+}
+
+$GEN{$NH(k int)}{int}{
+	for i := 0; i < 2; i++ {
+		switch $YFROM{$NX(k + i)}; {
+		case i == 1:
+			tr.Ev(2)
+		}
+	}
+	$RET
+}`, entries: []*Entry{drive("$NG", "int", 1, nil), drive("$NH", "int", 1, nil)}},
+}
